@@ -43,8 +43,9 @@ Violated(S, T, c, raised) ==
   \cup (IF ContextOK(S, T, c, raised) THEN {} ELSE {"context"})
   \cup (IF NewOK(S, T, c, raised) THEN {} ELSE {"new"})
 
-Do(c) == /\ nops < MaxOps /\ ~x.torn /\ x.cwd = Home
-         /\ LET r == Run(x, c) IN
+\* w = the transcribed call applied to x (each action names its own operator: Run's CASE would do the same)
+Do(c, w) == /\ nops < MaxOps /\ ~x.torn /\ x.cwd = Home
+         /\ LET r == Finish(x, c, w) IN
             /\ x' = r.s
             /\ g' = GhostStep(g, x, c, r)
             /\ viol' = viol \cup Violated(x, r.s, c, r.raised)
@@ -55,25 +56,25 @@ Free == {h \in Handles : ~x.pools[h].ex}
 Lowest(h) == h \in Free /\ \A h2 \in Free : h <= h2
 
 CallNew == \E h \in Handles, kind \in KindsUsed, outs \in OutsSet, name \in Names \cup {""}, prefix \in Prefixes :
-             Lowest(h) /\ Do([Call("new", h) EXCEPT !.kind = kind, !.outs = outs, !.name = name, !.prefix = prefix])
-CallSetContext == \E h \in Live(x), bs \in BSs, seed \in Seeds : Do([Call("set_context", h) EXCEPT !.bs = bs, !.seed = seed])
-CallAddBatch == \E h \in Live(x), i \in 0..MaxI, ns \in NsSet, v \in Vals : Do([Call("add_batch", h) EXCEPT !.i = i, !.ns = ns, !.v = v])
-CallRemoveBatch == \E h \in Live(x), i \in 0..MaxI : Do([Call("remove_batch", h) EXCEPT !.i = i])
-CallGetBatch == \E h \in Live(x), i \in 0..MaxI : Do([Call("get_batch", h) EXCEPT !.i = i])
-CallAddStore == \E h \in Live(x), node \in Nodes, what \in Whats : Do([Call("add_store", h) EXCEPT !.node = node, !.what = what])
-CallRemoveStore == \E h \in Live(x), node \in Nodes : Do([Call("remove_store", h) EXCEPT !.node = node])
-CallClear == \E h \in Live(x) : Do(Call("clear", h))
-CallFlush == \E h \in Live(x) : Do(Call("flush", h))
-CallSave == \E h \in Live(x) : Do(Call("save", h))
-CallClose == \E h \in Live(x) : Do(Call("close", h))
-CallDelete == \E h \in Live(x) : Do(Call("delete", h))
+             Lowest(h) /\ LET c == [Call("new", h) EXCEPT !.kind = kind, !.outs = outs, !.name = name, !.prefix = prefix] IN Do(c, New(x, c))
+CallSetContext == \E h \in Live(x), bs \in BSs, seed \in Seeds : LET c == [Call("set_context", h) EXCEPT !.bs = bs, !.seed = seed] IN Do(c, SetContext(x, c))
+CallAddBatch == \E h \in Live(x), i \in 0..MaxI, ns \in NsSet, v \in Vals : LET c == [Call("add_batch", h) EXCEPT !.i = i, !.ns = ns, !.v = v] IN Do(c, AddBatch(x, c))
+CallRemoveBatch == \E h \in Live(x), i \in 0..MaxI : LET c == [Call("remove_batch", h) EXCEPT !.i = i] IN Do(c, RemoveBatch(x, c))
+CallGetBatch == \E h \in Live(x), i \in 0..MaxI : LET c == [Call("get_batch", h) EXCEPT !.i = i] IN Do(c, GetBatch(x, c))
+CallAddStore == \E h \in Live(x), node \in Nodes, what \in Whats : LET c == [Call("add_store", h) EXCEPT !.node = node, !.what = what] IN Do(c, AddStore(x, c))
+CallRemoveStore == \E h \in Live(x), node \in Nodes : LET c == [Call("remove_store", h) EXCEPT !.node = node] IN Do(c, RemoveStore(x, c))
+CallClear == \E h \in Live(x) : LET c == Call("clear", h) IN Do(c, Clear(x, c))
+CallFlush == \E h \in Live(x) : LET c == Call("flush", h) IN Do(c, Flush(x, c))
+CallSave == \E h \in Live(x) : LET c == Call("save", h) IN Do(c, Save(x, c))
+CallClose == \E h \in Live(x) : LET c == Call("close", h) IN Do(c, Close(x, c))
+CallDelete == \E h \in Live(x) : LET c == Call("delete", h) IN Do(c, Delete(x, c))
 CallOpen == \E h \in Handles, name \in AllNames, prefix \in Prefixes :
-              Lowest(h) /\ Do([Call("open", h) EXCEPT !.name = name, !.prefix = prefix])
-DropObject == \E h \in Live(x) : Do(Call("drop", h))
+              Lowest(h) /\ LET c == [Call("open", h) EXCEPT !.name = name, !.prefix = prefix] IN Do(c, Open(x, c))
+DropObject == \E h \in Live(x) : LET c == Call("drop", h) IN Do(c, Drop(x, c))
 MoveFolder == EnvMoves /\ \E d1 \in Dirs, d2 \in Dirs : d1 # d2 /\ x.disk[d1].ex /\ ~x.disk[d2].ex /\ ~OpenIn(x, d1)
-                                                       /\ Do([Call("move", 0) EXCEPT !.d1 = d1, !.d2 = d2])
+                                                       /\ LET c == [Call("move", 0) EXCEPT !.d1 = d1, !.d2 = d2] IN Do(c, MoveDir(x, c))
 CopyFolder == EnvMoves /\ \E d1 \in Dirs, d2 \in Dirs : d1 # d2 /\ x.disk[d1].ex /\ ~x.disk[d2].ex /\ ~OpenIn(x, d1)
-                                                       /\ Do([Call("copy", 0) EXCEPT !.d1 = d1, !.d2 = d2])
+                                                       /\ LET c == [Call("copy", 0) EXCEPT !.d1 = d1, !.d2 = d2] IN Do(c, CopyDir(x, c))
 \* the only thing that happens while the working directory is a pool folder
 ChdirBack == /\ x.cwd # Home /\ ~x.torn /\ nops < MaxOps
              /\ x' = [x EXCEPT !.cwd = Home] /\ nops' = nops + 1 /\ UNCHANGED <<g, viol>>
